@@ -26,8 +26,8 @@ from .c02 import MASKS
 from .c03 import EXTRACTABLE
 
 ID = "C20"
-QUICK_RUNS = 3000
-THOROUGH_RUNS = 150000
+QUICK_RUNS = 10000
+THOROUGH_RUNS = 400000
 LEVEL = "exploration"
 RULE = ("one run = the JSON log of a generated program (typed and failed actions, tracebacks, extractor fields, "
         "destination-failure and serialization-failure reports, nested / multi-line values) damaged by 0-6 drawn "
